@@ -7,6 +7,7 @@ import (
 	"encoding/json"
 	"fmt"
 	"github.com/ipld/go-ipld-prime/node/basicnode"
+	"io"
 	"math"
 	"math/big"
 	"math/rand"
@@ -208,6 +209,15 @@ func ReplayJsonEnc(cs *JsonCase, seed int64, limit int) (*run.Finding, int) {
 				return fail("dagjson.Encode["+impl+"]", "Deterministic", "different-bytes",
 					fmt.Sprintf("insertion order #%d %v in %s: %q, first encoding %q", oi, ord, impl, buf.Bytes(), first)), checks
 			}
+		}
+	}
+	// ... and a function of the value alone also right after an Encode that failed
+	if n, err := conc.BuildImpl("basic", cs.V); err == nil {
+		f, k := encodeAfterFaults("dagjson.Encode[basic]", func(n datamodel.Node, w io.Writer) error { return dagjson.Encode(n, w) }, n, first,
+			[]encProbe{{basicnode.NewString("x"), []byte(`"x"`)}, {cborProbe, []byte(`{"a":1}`)}}, rng, 12, fmt.Sprint(cs.V))
+		checks += k
+		if f != nil {
+			return f, checks
 		}
 	}
 	// decode: the same value, sorted, with the same kinds
